@@ -112,7 +112,9 @@ check("C17", "Same monitor over driver family 'resolve': AddressesFound only for
 check("C19", "Same monitor: every question the daemon asks must be explained by the doubling schedule of an open search (1, 2, 4 .. s capped at 3600 s; "
       "browsing again replaces the schedule), a refresh mark, one of <= 3 follow-ups, or a verify; a due schedule slot must be used; the same "
       "question is not asked more often than explained; families browse, resolve and silent (horizons of hours, up to the one-hour cap). The schedule "
-      "automaton is model-checked against the closed form (MCSchedule).",
+      "automaton is model-checked against the closed form (MCSchedule). Mechanism level: the re-runs the loop has queued when it parks (hook) must be "
+      "one chain per search and per unresolved instance (C19.loop-one), due exactly at the next slot of the schedule with the doubled, capped delay "
+      "(C19.loop-sched).",
       Q_NOTE, Q_TECH, "DESIGN.md section 7 C19")
 check("C20", "Same monitor over driver families 'flood' and 'browse': every get_metrics reply is compared with the ground truth: cached-ptr/srv/txt/addr <= "
       "records received and still alive, timers proportional to live records and searches (strict clause: known finding; weaker 'popped' clause "
